@@ -30,8 +30,34 @@ ONEFRAG: set[int] = set()    # zones whose schedules are small enough for a sing
 SHRINK: set[int] = set()     # zones whose schedule is replaced (from version 2 on) by one that fits a single fragment
 
 
+FAMILY: dict[int, tuple[int, str]] = {}  # zones with an irregular weekly schedule: z -> (seed, "late" | "early"), per scenario
+
+
+def fam_sched(seed: int, where: str, c: int) -> list:
+    """An irregular weekly schedule (4-6 switch-points a day at odd times, 5-6 fragments), version c = the base schedule
+    after c single-set-point edits (+0.5 degrees on one switch-point), each late in the week (Saturday/Sunday: the head of
+    the compressed stream - the first fragment or more - usually stays byte-identical) or early (Monday: less often).
+    Which fragments of successive versions really are identical is measured (Book.sh), not assumed."""
+    import random
+
+    rnd = random.Random(f"c18-family-{seed}")
+    days = []
+    for d in range(7):
+        slots = sorted(rnd.sample(range(144), rnd.randint(4, 6)))
+        days.append({"day_of_week": d, "switchpoints": [
+            {"time_of_day": f"{t // 6:02d}:{10 * (t % 6):02d}", "heat_setpoint": rnd.randrange(10, 50) / 2} for t in slots]})
+    for i in range(1, c + 1):
+        er = random.Random(f"c18-family-{seed}-edit-{i}")
+        sps = days[er.choice((5, 6)) if where == "late" else 0]["switchpoints"]
+        sps[er.randrange(len(sps))]["heat_setpoint"] += 0.5  # (sums only grow: every version is a different schedule)
+    return days
+
+
 def mk_sched(z: int, c: int) -> dict:
-    """The schedule with content version c of zone z (validator-accepted, 2 or 3 fragments; 1 for ONEFRAG zones)."""
+    """The schedule with content version c of zone z (validator-accepted, 2 or 3 fragments; 1 for ONEFRAG zones;
+    FAMILY zones: see fam_sched)."""
+    if z in FAMILY:
+        return {"zone_idx": zid(z), "schedule": fam_sched(*FAMILY[z], c)}
     if z in ONEFRAG or (z in SHRINK and c >= 2):   # the same switch-point every day: compresses into one fragment
         return {"zone_idx": zid(z), "schedule": [
             {"day_of_week": d, "switchpoints": [{"time_of_day": "00:00", "heat_setpoint": 15.0 + c + z}]}
@@ -65,15 +91,31 @@ class Book:
         self.frags: dict[tuple[int, int], list[str]] = {}
         self.by_text: dict[tuple[int, str], int] = {}
         self.scheds: dict[tuple[int, int], list] = {}
+        # sh[z][c]: the positions at which the fragment of version c is byte-identical with that of version c - 1
+        # (SchedXferCore: a slot value is the earliest version whose fragment in that position has these bytes; empty
+        # everywhere but in FAMILY zones)
+        self.sh: dict[int, list[list[int]]] = {z: [[] for _ in range(MAXC + 1)] for z in zones}
         for z in zones:
             for c in range(MAXC + 1):
                 fr = full_sched_to_fragz(mk_sched(z, c))
                 want = 1 if z in ONEFRAG or (z in SHRINK and c >= 2) else 2 if c < 2 else 3
-                if len(fr) != want:
+                if z not in FAMILY and len(fr) != want:
                     raise RuntimeError(f"mk_sched({z},{c}) has {len(fr)} fragments, wanted {want}")
                 self.frags[z, c] = fr
                 self.scheds[z, c] = mk_sched(z, c)["schedule"]
-                for f in fr:
+                if z in FAMILY and c:
+                    prev = self.frags[z, c - 1]
+                    self.sh[z][c] = [k for k, (a, b) in enumerate(zip(fr, prev), 1) if a == b]
+                    if fr[-1] == prev[-1] or self.scheds[z, c] in [self.scheds[z, i] for i in range(c)]:
+                        raise RuntimeError("family versions are not distinct (the last fragment carries the checksum)")
+                for k, f in enumerate(fr, 1):
+                    if z in FAMILY:
+                        rep = c
+                        while rep > 0 and k in self.sh[z][rep]:
+                            rep -= 1
+                        if self.by_text.setdefault((z, f), rep) != rep:
+                            raise RuntimeError("family fragment shared other than in one position of successive versions")
+                        continue
                     if (z, f) in self.by_text:
                         raise RuntimeError("fragment texts are not unique per version")
                     self.by_text[z, f] = c
@@ -96,10 +138,26 @@ _BOOKS: dict[tuple, Book] = {}
 
 
 def _book(zones: tuple) -> Book:
-    key = (zones, tuple(sorted(ONEFRAG)), tuple(sorted(SHRINK)))
+    key = (zones, tuple(sorted(ONEFRAG)), tuple(sorted(SHRINK)), tuple(sorted(FAMILY.items())))
     if key not in _BOOKS:
         _BOOKS[key] = Book(list(zones))
     return _BOOKS[key]
+
+
+def classify_family(seed: int, where: str) -> tuple[int, list[list[int]]] | None:
+    """Fragment counts and shared positions of the first versions of family (seed, where): (n0, n1, n2, sh) - or None when the
+    family is unusable (fragments coincide in a way the slot abstraction does not describe)."""
+    saved = (dict(FAMILY), set(ONEFRAG), set(SHRINK))
+    FAMILY.clear(), ONEFRAG.clear(), SHRINK.clear()
+    FAMILY[1] = (seed, where)
+    try:
+        b = _book((1, 2))
+        return [len(b.frags[1, c]) for c in range(3)], b.sh[1][:3]  # type: ignore[return-value]
+    except RuntimeError:
+        return None
+    finally:
+        FAMILY.clear(), ONEFRAG.clear(), SHRINK.clear()
+        FAMILY.update(saved[0]), ONEFRAG.update(saved[1]), SHRINK.update(saved[2])
 
 
 class Ctl:
@@ -148,10 +206,11 @@ class Ctl:
             if n == 1 or plan == "slow":
                 self.wbuf[z][k] = pay[14:]
                 if k == tot and all(i in self.wbuf[z] for i in range(1, tot + 1)):
-                    vs = {self.book.ver_of_frag(z, self.wbuf[z][i]) for i in range(1, tot + 1)}
+                    texts = [self.wbuf[z][i] for i in range(1, tot + 1)]
                     self.wbuf[z] = {}
-                    if len(vs) == 1 and -3 not in vs:
-                        self.cver[z] = vs.pop()
+                    vs = [c for c in range(MAXC + 1) if self.book.frags[z, c] == texts]  # a whole set of one version
+                    if vs:
+                        self.cver[z] = vs[0]
                         self.counter += 1
                         self.run.log("bump", z=z, a=self.cver[z])
             reply = f" I --- {CTL} {GW} --:------ 0404 007 {pay[:14]}"
@@ -192,6 +251,8 @@ class Run:
         ONEFRAG.update(scenario.get("onefrag", []))
         SHRINK.clear()
         SHRINK.update(scenario.get("shrink", []))
+        FAMILY.clear()
+        FAMILY.update({int(z): (int(v[0]), str(v[1])) for z, v in (scenario.get("fam") or {}).items()})
         self.zones: list[int] = list(scenario.get("zones", [1, 2]))
         self.verbose = verbose
         self.ev: list[dict] = []
@@ -339,7 +400,7 @@ class Run:
         m6 = self.tcs._msg_0006
         if m6 is not None and self.fresh and (VDT.now() - m6.dtm).total_seconds() >= 180:
             self.log("age")  # more than 3 minutes since the last RP|0006: the cached counter is stale
-        self.log("start", z=x.z, a=x.tid, b=int(x.force), c=x.wr, s=x.op)
+        self.log("start", z=x.z, a=x.tid, b=int(x.force) if x.op == "get" else len(self.book.frags[x.z, x.wr]), c=x.wr, s=x.op)
         try:
             if x.op == "get":
                 res = await zone.get_schedule(force_io=x.force)
@@ -518,7 +579,8 @@ class Run:
                 return
 
     def item(self) -> dict:
-        return {"ev": [{k: v for k, v in e.items() if k != "t"} for e in self.ev]}
+        return {"ev": [{k: v for k, v in e.items() if k != "t"} for e in self.ev],
+                "sh": [self.book.sh[z] for z in sorted(self.zones)]}
 
 
 def run_scenario(sc: dict, verbose: bool = False) -> Run:
